@@ -56,6 +56,15 @@ Theorem C10_cached_models_never_mutated :
 Proof. exact repaired_never_mutates. Qed.
 Print Assumptions C10_cached_models_never_mutated.
 
+(* a parse on an existing model leaves the shared state (cache, heap: grammar models and their configuration)
+   untouched, for the shipped and for the repaired compile alike *)
+Theorem C10_parse_does_not_mutate :
+  forall (R : Type) (settings_valid : N -> bool) (result_of : gmodel -> sem -> N -> R) (gen_of : gmodel -> R)
+         (compile : cargs -> state -> state * (err + nat)) (st : state) (v : nat) (p : pargs),
+    fst (run_op R settings_valid result_of gen_of compile st (OParseVar v p)) = st.
+Proof. exact parse_does_not_mutate. Qed.
+Print Assumptions C10_parse_does_not_mutate.
+
 (* `bound`: every field of the context a parse reads is assigned by the entry code from `self._config`, the
    call's arguments and the text before the body runs; so whatever an earlier parse on the same context / parser
    object did - succeed, fail, leave anything in any volatile field - the next parse is unaffected.
